@@ -49,3 +49,21 @@ pub fn adjust_options(options: crate::config::Options) -> crate::config::Options
         None => options,
     }
 }
+
+/// Timestamps for the keepalive that follow tokio's clock, which a simulation pauses and
+/// advances, instead of the operating system's: the convenience constructors use it under the
+/// guard, so that keepalive timeouts are reachable (and exactly timed) in simulated time.
+#[cfg(feature = "tokio-time")]
+#[derive(Clone, Copy, Debug)]
+pub struct SimInstant(tokio::time::Instant);
+
+#[cfg(feature = "tokio-time")]
+impl crate::timing::TimestampProvider for SimInstant {
+    fn now() -> Self {
+        Self(tokio::time::Instant::now())
+    }
+
+    fn duration_since(&self, earlier: Self) -> core::time::Duration {
+        self.0.duration_since(earlier.0)
+    }
+}
